@@ -1,0 +1,18 @@
+//go:build verif
+
+package backtrace
+
+// Machine-checked contracts (comment-only; build tag `verif`); read by /verif/govc.
+
+// C03: the backward traversal stops at a node (and reports the trace ending there)
+// only when nothing can flow INTO that node: it has no intra-procedural incoming
+// edge, and it is not of a kind that receives inter-procedural flows (parameters,
+// calls and their arguments, closures, bound and free variables, reads of a global
+// that is written somewhere).
+//@ func isBaseCase
+//@   property C03
+//@   requires node != nil && ref(node) != 0 && cfg != nil
+//@   ensures no_intra_edges: result && !istype(node, *dataflow.CallNodeArg) ==> len(node.In()) == 0
+//@   ensures inter_kinds: istype(node, *dataflow.ParamNode) || istype(node, *dataflow.CallNode) || istype(node, *dataflow.CallNodeArg) || istype(node, *dataflow.ClosureNode) || istype(node, *dataflow.BoundVarNode) || istype(node, *dataflow.FreeVarNode) ==> !result
+//@   ensures global_read: istype(node, *dataflow.AccessGlobalNode) && !node.(*dataflow.AccessGlobalNode).IsWrite && (cfg.SummarizeOnDemand || len(node.(*dataflow.AccessGlobalNode).Global.WriteLocations) > 0) ==> !result
+//@   ensures global_write: istype(node, *dataflow.AccessGlobalNode) && node.(*dataflow.AccessGlobalNode).IsWrite && len(node.In()) > 0 ==> !result
